@@ -10,19 +10,19 @@ VARIABLE l
 \* successors are computed by TLC's worker threads (large stack, parallel)
 Init == l = 0
 Next == l = 0 /\ l' \in 1..Len(Trace)
-E == Trace[IF l = 0 THEN 1 ELSE l]
+E == Trace[l]
 
-SrcDecodes == LET d == Decode(E.src) IN
+SrcDecodes == l = 0 \/ LET d == Decode(E.src) IN
               d.ok /\ E.srcd.ok /\ d.ver = E.srcd.ver /\ d.frag = E.srcd.frag /\ d.digits = E.srcd.digits
 \* the bytes the implementation produced are the bytes the specification prescribes
-OutMatches == E.out = EncodeReply(Decode(E.src), E.id, E.pser, E.body)
+OutMatches == l = 0 \/ E.out = EncodeReply(Decode(E.src), E.id, E.pser, E.body)
 \* what the implementation decoded from its own output is what the specification decodes
-DecMatches == LET d == Decode(E.out) IN
+DecMatches == l = 0 \/ LET d == Decode(E.out) IN
               /\ E.dec.ok = d.ok
               /\ d.ok => /\ E.dec.id = d.id /\ E.dec.serial = d.serial /\ E.dec.body = d.body
                          /\ E.dec.digits = d.digits /\ E.dec.ver = d.ver
 \* the property itself, on the observed values only
-RoundTripObserved == /\ E.dec.ok /\ E.dec.id = E.id /\ E.dec.serial = E.pser /\ E.dec.body = E.body
-                     /\ E.dec.digits = E.srcd.digits /\ E.dec.ver = E.srcd.ver
-TransparentObserved == Transparent(E.out)
+RoundTripObserved == l = 0 \/ (/\ E.dec.ok /\ E.dec.id = E.id /\ E.dec.serial = E.pser /\ E.dec.body = E.body
+                               /\ E.dec.digits = E.srcd.digits /\ E.dec.ver = E.srcd.ver)
+TransparentObserved == l = 0 \/ Transparent(E.out)
 =============================================================================
